@@ -46,14 +46,14 @@ Logged ==
   \/ Is("ProcX") /\ Ln.exc # "Cancelled" /\ task[OwnerT].fe = Ln.e /\ task[OwnerT].fb = Ln.b /\ ProcSelect(OwnerT) /\ task'[OwnerT].pc = "abort"
   \/ Is("HEnter") /\ Ln.sync /\ nact + 1 = Ln.act /\ \E t \in Tasks : /\ task[t].fe = Ln.e /\ task[t].fb = Ln.b /\ task[t].todo # <<>>
                                 /\ Head(task[t].todo).id = Ln.h /\ Head(task[t].todo).kind = "sync"
-                                /\ TaskLabelKind(t) = Ln.byk /\ Last(ev[Ln.e].path) = Ln.rb /\ OwnerNext(t)
+                                /\ TaskLabelKind(t) = Ln.byk /\ Ln.b = Ln.rb /\ OwnerNext(t)
   \/ Is("Disp") /\ ~Ln.fw /\ Ln.act # 0 /\ nev + 1 = Ln.e /\ task[HT(Ln.act)].pc = "sync" /\ SyncDispatch(task[HT(Ln.act)].owner, Ln.b, Ln.ty) /\ Last(o'.disp).out = Ln.out
   \/ Is("HExit") /\ task[HT(Ln.act)].pc = "sync" /\ SyncFinish(task[HT(Ln.act)].owner, IF Ln.out = "ret" THEN "ret" ELSE "raise")
-  \/ Is("HReadBus") /\ task[HT(Ln.act)].pc = "sync" /\ Last(ev[task[HT(Ln.act)].e].path) = Ln.rb /\ UNCHANGED vars
+  \/ Is("HReadBus") /\ task[HT(Ln.act)].pc = "sync" /\ task[HT(Ln.act)].b = Ln.rb /\ UNCHANGED vars
   \/ Is("HEnter") /\ ~Ln.sync /\ task[HT(Ln.act)].b = Ln.b /\ task[HT(Ln.act)].e = Ln.e /\ task[HT(Ln.act)].h = Ln.h
-                  /\ TaskLabelKind(task[HT(Ln.act)].owner) = Ln.byk /\ Last(ev[Ln.e].path) = Ln.rb /\ HStart(Ln.act)
+                  /\ TaskLabelKind(task[HT(Ln.act)].owner) = Ln.byk /\ Ln.b = Ln.rb /\ HStart(Ln.act)
   \/ Is("HOp") /\ task[HT(Ln.act)].pc = (IF Ln.op = "y" THEN "yield" ELSE "sleep") /\ HWake(Ln.act)
-  \/ Is("HReadBus") /\ cur = HT(Ln.act) /\ Last(ev[task[HT(Ln.act)].e].path) = Ln.rb /\ UNCHANGED vars
+  \/ Is("HReadBus") /\ cur = HT(Ln.act) /\ task[HT(Ln.act)].b = Ln.rb /\ UNCHANGED vars
   \/ Is("AwB") /\ \E k \in DOMAIN task[HT(Ln.act)].kids : task[HT(Ln.act)].kids[k] = Ln.e /\ HAwaitBegin(Ln.act, k)
   \/ Is("AwE") /\ ~Ln.canc /\ task[HT(Ln.act)].aw = Ln.e /\ (HAwaitDone(Ln.act) \/ InlineGiveUp(Ln.act))
   \/ Is("AwE") /\ Ln.canc /\ task[HT(Ln.act)].aw = Ln.e /\ HCancelAw(Ln.act)
